@@ -186,3 +186,82 @@ Proof.
   destruct (route_check g q (p' :: nil)) eqn:Hc; [|discriminate].
   intros [= <-]. apply checker_exact. assumption.
 Qed.
+
+(** ** The judge the check runs: [route_diagnose] names the first failing clause, and is 0 exactly
+    when the verified checker accepts *)
+Lemma forallb2_andb {A} (p q : A -> bool) (all : list (list A)) :
+  forallb (forallb (fun x => p x && q x)) all = forallb (forallb p) all && forallb (forallb q) all.
+Proof.
+  assert (forall l, forallb (fun x => p x && q x) l = forallb p l && forallb q l) as H1.
+  { induction l as [|x t IH]; [reflexivity|]. simpl. rewrite IH.
+    destruct (p x), (q x), (forallb p t), (forallb q t); reflexivity. }
+  induction all as [|l t IH]; [reflexivity|]. simpl. rewrite IH, H1.
+  destruct (forallb p l), (forallb q l), (forallb (forallb p) t), (forallb (forallb q) t); reflexivity.
+Qed.
+
+Theorem diagnose_zero_iff g q r : route_diagnose g q r = 0 <-> route_check g q r = true.
+Proof.
+  unfold route_diagnose, route_check.
+  destruct (sequence (List.map (resolve g q) r)) as [all|]; [|split; discriminate].
+  change (forallb (forallb (leg_ok_b q)) all) with
+    (forallb (forallb (fun l => usable_b (r_e l) && not_excluded_b q (r_id l) (r_e l) &&
+                                kind_ok_b q (r_pos l) (e_kind (r_e l)) && (e_hmin (r_e l) <=? r_amt l) && fee_ok_b l)) all).
+  rewrite !forallb2_andb.
+  set (total := sumz (List.map final_amt all)).
+  set (overpay := q_value q <? total).
+  generalize (match r with nil => true | _ => false end) as b2.
+  generalize (Z.of_nat (List.length r) <=? q_max_paths q) as b3.
+  generalize (forallb2 (path_shape_ok_b q) r all) as b4.
+  generalize (forallb (forallb (fun l => usable_b (r_e l))) all) as b5.
+  generalize (forallb (forallb (fun l => not_excluded_b q (r_id l) (r_e l))) all) as b6.
+  generalize (forallb (forallb (fun l => kind_ok_b q (r_pos l) (e_kind (r_e l)))) all) as b7.
+  generalize (forallb (forallb (fun l => e_hmin (r_e l) <=? r_amt l)) all) as b8.
+  generalize (forallb (forallb fee_ok_b) all) as b9.
+  generalize (forallb (limit_ok_b overpay all) (List.flat_map tails all)) as b10.
+  generalize (q_value q <=? total) as b11.
+  generalize (forallb (fun ls => total - final_amt ls <? q_value q) all) as b12.
+  generalize (match q_max_fee q with
+              | Some m => sumz (List.map path_fees all) + (total - q_value q) <=? m
+              | None => true
+              end) as b13.
+  intros. destruct b2, b3, b4, b5, b6, b7, b8, b9, b10, b11, b12, b13; simpl; split; intros H;
+    first [discriminate H | reflexivity].
+Qed.
+
+Theorem route_ok_sound g q r : route_ok g q r = true -> route_valid g q r.
+Proof. apply checker_exact. Qed.
+
+Theorem judge_sound g q r : route_diagnose g q r = 0 -> route_valid g q r.
+Proof. intros H. apply checker_exact, diagnose_zero_iff, H. Qed.
+
+Theorem judge_complete g q r : route_valid g q r -> route_diagnose g q r = 0.
+Proof. intros H. apply diagnose_zero_iff, checker_exact, H. Qed.
+
+(** what acceptance means hop by hop *)
+Theorem route_ok_legs g q r :
+  route_ok g q r = true ->
+  exists all, List.map (resolve g q) r = List.map Some all /\
+    1 <= Z.of_nat (List.length r) <= q_max_paths q /\
+    q_value q <= sumz (List.map final_amt all) /\
+    (forall ls l, In ls all -> In l ls ->
+       usable (r_e l) /\ not_excluded q (r_id l) (r_e l) /\ kind_ok q (r_pos l) (e_kind (r_e l)) /\
+       e_hmin (r_e l) <= r_amt l /\ fee_ok l) /\
+    (forall p ls, In (p, ls) (List.combine r all) ->
+       Z.of_nat (List.length (p_hops p)) <= q_max_len q /\
+       sumz (List.map h_cltv (p_hops p)) <= q_max_cltv q /\ last_dst ls = Some (q_payee q)) /\
+    match q_max_fee q with
+    | Some m => sumz (List.map path_fees all) + (sumz (List.map final_amt all) - q_value q) <= m
+    | None => True
+    end.
+Proof.
+  intros H. apply route_ok_sound in H. destruct H as (all & Hres & Hne & Hcnt & Hshape & Hlegs & _ & Hval & _ & Hfee).
+  exists all. split; [assumption|]. split.
+  { split; [|assumption]. destruct r; [exfalso; apply Hne; reflexivity|]. simpl List.length. lia. }
+  split; [assumption|]. split.
+  { intros ls l Hls Hl. rewrite Forall_forall in Hlegs. specialize (Hlegs ls Hls).
+    rewrite Forall_forall in Hlegs. exact (Hlegs l Hl). }
+  split; [|assumption].
+  clear -Hshape. induction Hshape as [|p ls r' all' Hp _ IH]; simpl; [intros ? ? []|].
+  intros p0 ls0 [[= <- <-]|Hin]; [|apply IH; assumption].
+  destruct Hp as (_ & Hd & Hl & Hc). repeat split; assumption.
+Qed.
